@@ -7,8 +7,8 @@ Two completely enumerated products of small menus:
                      ballots ranking only withdrawn candidates, empty ballots; a few 3-line sets) x multiplier patterns {1,2,7}
                      x ballot-id styles {none, '(b1)', '( b 1 )'}
   presentation product  names {plain, with spaces, with # /* */ inside quotes, UTF-8, apostrophe} x title/source/comment menus x
-                     [tie] {none, reversed, rotated} x [nick] {none, nicknames used in ballots/tie/withdrawn} x [droop ...] options {none, one group, one group per option} x
-                     layouts {line per ballot, token per line, one line, CRLF, tabs, blank lines} x comments {none, '#' at line ends,
+                     [tie] {none, reversed, rotated} x [nick] {none, nicknames used in ballots/tie/withdrawn, decimal nicknames with numeric references} x [droop ...] options {none, one group, one group per option} x
+                     layouts {line per ballot, token per line, one line, CRLF, tabs, blank lines, bare CR / form feed / NEL as line ends} x comments {none, '#' at line ends,
                      /* */ between tokens, nested, '#' inside a block comment, a quoted word inside a comment} x trailing junk after the last string x BOM (through a file)
   boundary           n in {255, 256, 257} with a ballot ranking candidate n (array typecode switch)
 Oracle: every public attribute of ElectionProfile equals the structure (candidate count, seats, names, title, source, comment, tie order,
@@ -140,6 +140,10 @@ def layouts(L):
     yield 'crlf', '\r\n'.join(' '.join(l) for l in L) + '\r\n'
     yield 'tabs', '\n'.join('\t'.join(l) for l in L) + '\n'
     yield 'blank-lines', '\n\n  \n'.join('  '.join(l) for l in L) + '\n\n'
+    # every line boundary str.splitlines() knows ends a line (and a '#' comment): bare CR, form feed, NEL, LINE SEPARATOR
+    yield 'cr-only', '\r'.join(' '.join(l) for l in L) + '\r'
+    yield 'form-feed', '\x0c'.join(' '.join(l) for l in L) + '\n'
+    yield 'nel', '\x85'.join(' '.join(l) for l in L) + '\u2028'
 
 
 def commented(L):
@@ -264,13 +268,13 @@ class C15(Check):
             src, com = EXTRAS[case['extra']]
             for n in (2, 3):
                 for tie in (None, tuple(range(n, 0, -1)), tuple(range(2, n + 1)) + (1,)):
-                    for nick in (None, ['na', 'nb', 'nc'][:n]):
+                    for nick in (None, ['na', 'nb', 'nc'][:n], (['2', '3', '1'] if n == 3 else ['2', '1'])):     # decimal nicknames: numbers still mean candidate numbers
                         for droop, dsplit in ((None, False), (['meek', 'precision=5', 'bogus'], False), (['meek', 'precision=5', 'bogus'], True)):
                             for wd in ((), (n,)):
                                 st = {'n': n, 's': 1, 'wd': list(wd), 'ud': [], 'names': names3[:n], 'title': title, 'source': src, 'comment': com,
                                       'tie': tie, 'nick': nick, 'droop': droop, 'droop_split': dsplit,
                                       'ballots': [(2, tuple(range(1, n + 1))), (1, (2, 1)), (7, ((1, 2),) if n == 2 else ((1, 3), 2)), (1, (n,))]}
-                                for use_nick in ((False, True) if nick else (False,)):
+                                for use_nick in ((False, True) if (nick and not nick[0].isdigit()) else (False,)):
                                     for wd_style in (('minus', 'option') if wd else ('minus',)):
                                         L = lines_of(st, wd_style, None, use_nick)
                                         for cname, LC in commented(L):
